@@ -67,6 +67,7 @@ def gen_seq(rng):
             own = host_of(r)
             r['headers'] = [[h, v] for h, v in r['headers'] if ascii_upper(h) not in ('ORIGIN', 'REFERER')]
             r['headers'].append(['Origin', 'https://' + (own[:-4] if own.endswith(':443') else own)])
+        who = rng.randrange(nclients)
         k = rng.random()
         if k < 0.5:
             sup = PLACEHOLDER
@@ -76,12 +77,19 @@ def gen_seq(rng):
             sup = 'fresh-%d' % rng.randrange(i)
         elif k < 0.85:
             sup = 'fresh-%d' % i
+        elif k < 0.93 and clients[who]:
+            sup = clients[who]                   # the token this client held at the start (stale after a rotation)
         else:
             sup = rng.choice(STORED)
         r['headers'] = [[h, (sup if ascii_upper(h) == ascii_upper(hname) else v)] for h, v in r['headers']]
         r['body'] = [[f, (sup if f == tname else v)] for f, v in r['body']]
         r['stored'] = None
-        steps.append({'client': rng.randrange(nclients), 'req': r})
+        step = {'client': who, 'req': r}
+        k = rng.random()
+        if k < 0.4:
+            # what the view body does when it runs: pyramid.csrf.get_csrf_token(request) / new_csrf_token(request)
+            step['action'] = 'get' if k < 0.25 else 'new'
+        steps.append(step)
     return {'kind': 'seq', 'config': cfg, 'clients': clients, 'steps': steps}
 
 
